@@ -1,18 +1,20 @@
 import CpModel.Vector
 import CpModel.Gen.Consts
 import CpModel.Tls.Version
+import CpModel.Tls.Ext2
 /-
   CpModel.Tls.Msg — TLS record layer, alert, change-cipher-spec, handshake messages and hello
   extensions (`cryptoparser/tls/record.py`, `subprotocol.py`, `extension.py`), transcribed
   `_parse`/`compose` by `_parse`/`compose`, quirks included.
 
-  A class that is not modelled is reported as the pseudo-error `crash "UNMODELLED"`: the model
-  knows its own boundary and the correspondence check skips (and counts) such inputs.
+  A class that is not modelled is reported as the pseudo-error `crash "UNMODELLED"` (`unmodelled`,
+  CpModel/Tls/Ext2.lean): the model knows its own boundary and the correspondence check skips (and
+  counts) such inputs.  After the extension classes with structured bodies (Ext2.lean) and the
+  certificate request joined the model, the only inputs reported that way are server names the
+  `idna` codec would not leave unchanged.
 -/
 namespace Cp.Tls
 open Cp Cp.Codec
-
-def unmodelled : PErr := .crash "UNMODELLED"
 
 /-! ### protocol version -/
 
@@ -94,6 +96,7 @@ inductive ExtBody where
   | opaque (data : Bytes)         -- renegotiated_connection
   | num (v : Nat)                 -- padding length, record size limit
   | version (idx : Nat)           -- selected_version
+  | ext2 (b : Ext2Body)           -- the structured bodies of CpModel/Tls/Ext2.lean
 deriving Repr, DecidableEq
 
 /-- An extension as parsed: the class that produced it, the type code, the body. -/
@@ -112,8 +115,7 @@ inductive ExtKind where
   | recordSizeLimit
   | supportedVersionsClient
   | supportedVersionsServer
-
-def vp (g : Gen.VecP) : VecParam := VecParam.ofGen g
+  | ext2 (k : Ext2Kind)
 
 /-- Which parsed extension classes are inside the model, and how their body is laid out. -/
 def extKindOf : String → Option ExtKind
@@ -139,7 +141,22 @@ def extKindOf : String → Option ExtKind
   | "TlsExtensionRecordSizeLimit" => some .recordSizeLimit
   | "TlsExtensionSupportedVersionsClient" => some .supportedVersionsClient
   | "TlsExtensionSupportedVersionsServer" => some .supportedVersionsServer
+  | "TlsExtensionServerNameClient" => some (.ext2 .serverName)
+  | "TlsExtensionApplicationLayerProtocolNegotiation" | "TlsExtensionApplicationLayerProtocolSettings" =>
+    some (.ext2 .protocolNames)
+  | "TlsExtensionNextProtocolNegotiationServer" => some (.ext2 .nextProtocolNames)
+  | "TlsExtensionCertificateStatusRequestClient" => some (.ext2 .statusRequest)
+  | "TlsExtensionKeyShareClient" | "TlsExtensionKeyShareReservedClient" => some (.ext2 .keyShareClient)
+  | "TlsExtensionKeyShareServer" => some (.ext2 .keyShareServer)
+  | "TlsExtensionKeyShareClientHelloRetry" => some (.ext2 .keyShareHelloRetry)
+  | "TlsExtensionTokenBinding" => some (.ext2 .tokenBinding)
+  | "TlsExtensionSignedCertificateTimestampServer" => some (.ext2 .sctList)
   | _ => none
+
+/-- does the class decline an extension of declared length `len` with `InvalidType`? -/
+def ExtKind.declines : ExtKind → Nat → Bool
+  | .ext2 k, len => k.declines len
+  | _, _ => false
 
 /-- one item of `TlsSupportedVersionVector`: a version, or the two-byte invalid-type fallback -/
 def parseVersionOrFallback (bs : Bytes) : Except PErr (Coded × Nat) :=
@@ -184,6 +201,9 @@ def parseExtBody (kind : ExtKind) (len : Nat) (rest : Bytes) : Except PErr (ExtB
   | .supportedVersionsServer => do
     let (i, m) ← parseVersion rest
     pure (.version i, m)
+  | .ext2 k => do
+    let (b, m) ← parseExt2Body k len rest
+    pure (.ext2 b, m)
 
 /-- Walk the variant list of `TlsExtensionVariantClient/Server` (`VariantParsable._parse`) for an
 extension whose (known) type code is `t`: a class of another type raises `InvalidType` (next),
@@ -227,24 +247,29 @@ def composeExtHeader (t : Nat) (payloadLen : Nat) : Except PErr Bytes := do
   let b ← composeNum .network 2 (payloadLen : Int)
   pure (a ++ b)
 
+/-- the payload of `compose()` of a parsed extension class, by body layout -/
+def composeExtBody : ExtKind → ExtBody → Except PErr Bytes
+  | .unusedData, .empty => pure []
+  | .vecCoded p codes k, .coded items => composeVecCoded p codes k items
+  | .renegotiationInfo, .opaque d => composeOpaque (vp Gen.vec_TlsRenegotiatedConnection) d
+  | .sessionTicket, .raw d => pure d
+  | .padding, .num n => pure (List.replicate n 0)
+  | .recordSizeLimit, .num v => composeNum .network 2 (v : Int)
+  | .supportedVersionsClient, .coded items =>
+    composeVecItems (vp Gen.vec_TlsSupportedVersionVector) (composeCodedOrFallback Gen.TlsVersion.codes 2) items
+  | .supportedVersionsServer, .version i => composeVersion i
+  | .ext2 k, .ext2 b => composeExt2Body k b
+  | _, _ => .error (.crash "TypeError")
+
 /-- `compose()` of the modelled extension classes -/
 def composeExt (e : Ext) : Except PErr Bytes := do
   let payload ←
     match e.cls, e.body with
     | "TlsExtensionUnparsed", .raw d => pure d
     | cls, body =>
-      match extKindOf cls, body with
-      | some .unusedData, .empty => pure []
-      | some (.vecCoded p codes k), .coded items => composeVecCoded p codes k items
-      | some .renegotiationInfo, .opaque d => composeOpaque (vp Gen.vec_TlsRenegotiatedConnection) d
-      | some .sessionTicket, .raw d => pure d
-      | some .padding, .num n => pure (List.replicate n 0)
-      | some .recordSizeLimit, .num v => composeNum .network 2 (v : Int)
-      | some .supportedVersionsClient, .coded items =>
-        composeVecItems (vp Gen.vec_TlsSupportedVersionVector)
-          (composeCodedOrFallback Gen.TlsVersion.codes 2) items
-      | some .supportedVersionsServer, .version i => composeVersion i
-      | _, _ => .error (.crash "TypeError")
+      match extKindOf cls with
+      | some kind => composeExtBody kind body
+      | none => .error (.crash "TypeError")
   let h ← composeExtHeader e.typ payload.length
   pure (h ++ payload)
 
@@ -426,6 +451,55 @@ def certificateStatusCodec : Codec (Nat × Bytes) :=
 def parseCertificateStatus (bs : Bytes) : Except PErr ((Nat × Bytes) × Nat) := certificateStatusCodec.parse bs
 def composeCertificateStatus (v : Nat × Bytes) : Except PErr Bytes := certificateStatusCodec.compose v
 
+/-! ### certificate request (RFC 5246 §7.4.4) -/
+
+structure CertificateRequest where
+  certificateTypes : List Nat                     -- `TlsClientCertificateType` values
+  signatureAlgorithms : Option (List Coded)       -- absent before TLS 1.2
+  authorities : List Bytes                        -- DistinguishedName items
+deriving Repr, DecidableEq
+
+def clientCertificateTypeParam : VecParam := vp Gen.vec_TlsClientCertificateTypeVector
+def distinguishedNameParam : VecParam := vp Gen.vec_TlsDistinguishedName
+def distinguishedNameListParam : VecParam := vp Gen.vec_TlsDistinguishedNameVector
+def signatureAlgorithmsParam : VecParam := vp Gen.vec_TlsSignatureAndHashAlgorithmVector
+
+/-- `TlsClientCertificateType(item)` as `numeric_class` of the vector: `ValueError` → `InvalidValue` -/
+def convCertificateType (x : Nat) : Except PErr Nat :=
+  if Gen.TlsClientCertificateType.memberCodes.contains x then .ok x else .error .invalidValue
+
+/-- `TlsDistinguishedNameVector._parse` -/
+def parseDistinguishedNames (bs : Bytes) : Except PErr (List Bytes × Nat) :=
+  parseVecItems distinguishedNameListParam (parseOpaque distinguishedNameParam)
+    (fun d => (composeOpaque distinguishedNameParam d).map (·.length)) bs
+
+/-- `TlsHandshakeCertificateRequest._parse` on the payload: the certificate types; then a look-ahead
+at the next 16-bit length — when it spans exactly the rest of the payload the message has no
+`supported_signature_algorithms`; then the certificate authorities. -/
+def parseCertificateRequestInner (pl : Bytes) : Except PErr (CertificateRequest × Nat) := do
+  let (types, n1) ← parseVecNum clientCertificateTypeParam 1 convCertificateType pl
+  let (vl, _) ← parseNum .network 2 (pl.drop n1)
+  if vl + 2 == (pl.drop n1).length then do
+    let (cas, n3) ← parseDistinguishedNames (pl.drop n1)
+    pure (⟨types, none, cas⟩, n1 + n3)
+  else do
+    let (algs, n2) ← parseVecCoded signatureAlgorithmsParam Gen.TlsSignatureAndHashAlgorithm.codes 2 (pl.drop n1)
+    let (cas, n3) ← parseDistinguishedNames (pl.drop (n1 + n2))
+    pure (⟨types, some algs, cas⟩, n1 + n2 + n3)
+
+def composeCertificateRequestInner (r : CertificateRequest) : Except PErr Bytes := do
+  let a ← composeVecNum clientCertificateTypeParam 1 r.certificateTypes
+  let b ← match r.signatureAlgorithms with
+    | none => pure []
+    | some algs => composeVecCoded signatureAlgorithmsParam Gen.TlsSignatureAndHashAlgorithm.codes 2 algs
+  let c ← composeVecItems distinguishedNameListParam (composeOpaque distinguishedNameParam) r.authorities
+  pure (a ++ b ++ c)
+
+def certificateRequestCodec : Codec CertificateRequest :=
+  hsFramed 13 ⟨parseCertificateRequestInner, composeCertificateRequestInner⟩
+def parseCertificateRequest (bs : Bytes) : Except PErr (CertificateRequest × Nat) := certificateRequestCodec.parse bs
+def composeCertificateRequest (r : CertificateRequest) : Except PErr Bytes := certificateRequestCodec.compose r
+
 inductive Handshake where
   | clientHello (h : ClientHello)
   | serverHello (h : ServerHello)
@@ -433,12 +507,13 @@ inductive Handshake where
   | serverKeyExchange (params : Bytes)
   | certificateStatus (statusType : Nat) (status : Bytes)
   | serverHelloDone
+  | certificateRequest (r : CertificateRequest)
 deriving Repr, DecidableEq
 
 /-- the handshake message classes inside the model -/
 inductive HsClass where
   | clientHello | serverHello | helloRetryRequest | certificate | serverKeyExchange
-  | certificateStatus | serverHelloDone
+  | certificateStatus | serverHelloDone | certificateRequest
 deriving DecidableEq, Repr
 
 def hsClassOfName : String → Option HsClass
@@ -449,12 +524,13 @@ def hsClassOfName : String → Option HsClass
   | "TlsHandshakeServerKeyExchange" => some .serverKeyExchange
   | "TlsHandshakeCertificateStatus" => some .certificateStatus
   | "TlsHandshakeServerHelloDone" => some .serverHelloDone
+  | "TlsHandshakeCertificateRequest" => some .certificateRequest
   | _ => none
 
 /-- `get_handshake_type()` of the class, as its codec is built -/
 def HsClass.typ : HsClass → Nat
   | .clientHello => 1 | .serverHello => 2 | .helloRetryRequest => 6 | .certificate => 11
-  | .serverKeyExchange => 12 | .certificateStatus => 22 | .serverHelloDone => 14
+  | .serverKeyExchange => 12 | .certificateStatus => 22 | .serverHelloDone => 14 | .certificateRequest => 13
 
 def parseHsClass : HsClass → Bytes → Except PErr (Handshake × Nat)
   | .clientHello, bs => (parseClientHello bs).map fun (h, n) => (.clientHello h, n)
@@ -464,15 +540,17 @@ def parseHsClass : HsClass → Bytes → Except PErr (Handshake × Nat)
   | .serverKeyExchange, bs => (parseServerKeyExchange bs).map fun (p, n) => (.serverKeyExchange p, n)
   | .certificateStatus, bs => (parseCertificateStatus bs).map fun ((t, s), n) => (.certificateStatus t s, n)
   | .serverHelloDone, bs => (parseServerHelloDone bs).map fun (_, n) => (.serverHelloDone, n)
+  | .certificateRequest, bs => (parseCertificateRequest bs).map fun (r, n) => (.certificateRequest r, n)
 
 def parseHandshakeClass (cls : String) (bs : Bytes) : Except PErr (Handshake × Nat) :=
   match hsClassOfName cls with
   | some c => parseHsClass c bs
   | none => .error unmodelled
 
-/-- one alternative of `TlsHandshakeMessageVariant`: a modelled class is its parser; an unmodelled
-class (certificate request) still runs the common header check with ITS type, so it raises
-`InvalidType` for other types — only a message of that very type is beyond the model -/
+/-- one alternative of `TlsHandshakeMessageVariant`: a modelled class is its parser; a class the
+model does not know (none in the regenerated list at present) still runs the common header check
+with ITS type, so it raises `InvalidType` for other types — only a message of that very type would
+be beyond the model -/
 def hsAlt (e : String × Nat) (bs : Bytes) : Except PErr (Handshake × Nat) :=
   match hsClassOfName e.1 with
   | some c => parseHsClass c bs
@@ -493,6 +571,7 @@ def composeHandshake : Handshake → Except PErr Bytes
   | .serverKeyExchange p => composeServerKeyExchange p
   | .certificateStatus t s => composeCertificateStatus (t, s)
   | .serverHelloDone => composeServerHelloDone ()
+  | .certificateRequest r => composeCertificateRequest r
 
 def handshakeCodec : Codec Handshake := ⟨parseHandshakeVariant, composeHandshake⟩
 
